@@ -148,7 +148,7 @@ def _param_guard(func, node):
     it is truthy; else None."""
     cfg = cfg_of(func)
     nid = cfg.node_of(node).id
-    for t, lab in cfg.guards(nid):
+    for t, lab in cfg.strict_guards(nid):
         e = cfg.nodes[t].expr
         if isinstance(e, ast.Name) and e.id in func.params and lab is True:
             d = _param_default(func, e.id)
@@ -255,9 +255,10 @@ def rule_F6(ctx, rid='F6'):
             if isinstance(n, ast.Call):
                 if dotted(n.func) == 'self.likelihood':
                     callers.add(f.qualname)
-                for a in list(n.args) + [k.value for k in n.keywords]:
-                    if dotted(a) == 'self.likelihood':
-                        callers.add(f.qualname)
+                d = dotted(n.func) or ''
+                if (d == 'map' or d.endswith('.map') or d == 'partial') and n.args and \
+                        dotted(n.args[0]) == 'self.likelihood':
+                    callers.add(f.qualname)
     ctx.require('Sampler.evaluate_likelihood' in callers, 'evaluate_likelihood no longer calls '
                 'the likelihood')
     for q in sorted(callers):
@@ -475,7 +476,7 @@ def nondet_sources(func):
                 cfg = cfg or cfg_of(func)
                 ok = False
                 if cfg.has(n):
-                    for t, lab in cfg.guards(cfg.node_of(n).id):
+                    for t, lab in cfg.strict_guards(cfg.node_of(n).id):
                         e = cfg.nodes[t].expr
                         if isinstance(e, ast.Compare) and len(e.ops) == 1 and \
                                 isinstance(e.comparators[0], ast.Constant) and \
